@@ -3,6 +3,7 @@
 argv[1] == "pattern": print JSON {pattern, flags} of the regex replace_tags compiles.
 argv[1] == "tie"    : stdin JSON lines {id, rand, k0, text, probe}; stdout JSON lines
                       {id, protected, table:[[marker, tagname, vlist, inner, complete]], restored, probe_restored}
+argv[1] == "pre"    : stdin JSON lines {id, text}; stdout JSON lines {id, out} with out = util.remove_nowiki_tags(text)
 The random part and the counter are made deterministic: Uniquifier.random_string is patched to
 `rand`, and k0 dummy entries are put into uniq2repl before the call (count = len(uniq2repl))."""
 import json
@@ -44,5 +45,21 @@ def tie():
     sys.stdout.flush()
 
 
+def pre():
+    """stdin JSON lines {id, text}; stdout {id, out} = util.remove_nowiki_tags(text), pre = what create_pre makes of it"""
+    from mwlib.parser.refine import util
+    for line in sys.stdin:
+        line = line.strip()
+        if not line:
+            continue
+        c = json.loads(line)
+        try:
+            res = {"id": c["id"], "out": util.remove_nowiki_tags(c["text"])}
+        except Exception as e:
+            res = {"id": c["id"], "error": "%s: %s" % (type(e).__name__, e)}
+        sys.stdout.write(json.dumps(res) + "\n")
+    sys.stdout.flush()
+
+
 if __name__ == "__main__":
-    {"pattern": pattern, "tie": tie}[sys.argv[1]]()
+    {"pattern": pattern, "tie": tie, "pre": pre}[sys.argv[1]]()
